@@ -46,8 +46,8 @@ def gen_file(rng, crlf):
     lines = []
     for _ in range(rng.randint(1, 7)):
         k = rng.random()
-        if k < 0.06:
-            ln = bytes(rng.choice(ALPH) for _ in range(rng.randint(150, 400)))     # long line
+        if k < 0.04:
+            ln = bytes(rng.choice(ALPH) for _ in range(rng.randint(130, 220)))     # long line
         else:
             ln = bytes(rng.choice(ALPH) for _ in range(rng.choice([0, 1, 2, 3, 5, 8])))
         if rng.random() < 0.15:
@@ -439,7 +439,7 @@ def run(ctx):
                        "--column; --vimgrep; --json; random heading/--null/separators/-o; --json always-begin-end with -m); "
                        "non-trivial = some configuration printed something; distinct by case text")
     run_batch(ctx, corpus(), cli_every=1)
-    n = ctx.count(850)
+    n = ctx.count(800)
     run_batch(ctx, [gen_case(rng) for _ in range(n)], cli_every=max(1, n // ctx.count(80)))
     # Data::from_bytes / base64 / DecimalFormatter: model = code = independent oracle
     from props import C10
